@@ -83,6 +83,25 @@ CLAIMED = {
              "all seed/key outcomes and switch settings and by all 126 levels x 6 algorithm signatures on the real client.",
         design_ref='DESIGN.md §3 C13',
         technique='Lean 4 proof (case analysis; decide over all levels) + call-graph tie + differential history suite'),
+    'C01': dict(
+        text="Lean theorems over line-faithful models of every make_request (ReadDataByIdentifier incl. _first / test, WriteDataByIdentifier, IO control with values and masks, "
+             "DynamicallyDefineDataIdentifier, ReadDTCInformation: all request groups table-tied to the ISO layout for every sub-function byte by kernel decide, RequestFileTransfer with Filesize "
+             "objects, Authentication: all 9 tasks, the simple services, memory-addressed requests): when the builder succeeds the payload is sid, sub-function, parameters big-endian in the "
+             "standard's order and width, and an independent server-side decoder (Uds/Spec/Request.lean) gives back the caller's arguments, for arbitrary identifiers, lists, byte strings and "
+             "widths; inside a suppress block only bit 7 of the sub-function byte changes and the decoder reads it back; services without sub-function cannot carry it. RequestFileTransfer: layout "
+             "theorem only (_partial), the decoder round trip for it and for 5 of the 13 simple wrappers is established by the correspondence suite. Tied by structured calls on every entry point "
+             "and wrapper: real client vs udsdrv, and the Spec decoder applied to the frame the real client sent.",
+        design_ref='DESIGN.md §3 C01',
+        technique='Lean 4 proof (decode∘encode per service, list induction, table tie by decide +kernel) + differential correspondence + Spec decoder on the implementation\'s frames'),
+    'C07': dict(
+        text="Lean theorems: for every request builder, make_request succeeds IFF the arguments are in the documented domain (accept-iff theorems: identifier ranges, configured codecs and their "
+             "lengths, read-all codec only last, IO masks defined and fitting, sub-function defined and allowed by the edition, every ISO request parameter present and in range, dtc_class rule, "
+             "file-transfer mode / path / DataFormatIdentifier / Filesize object rules incl. width, authentication task fields, memory values fitting their width via C14); a failing builder "
+             "precedes send_request, so nothing is sent. Known findings (KNOWN-FINDING lines): superfluous parameters of read_dtc_information / authentication are ignored, the two 'todo' "
+             "sub-functions are transmitted bare, extended-data size is validated after sending. Tied by the out-of-domain stream on the real client (connection untouched) and a wrong-type sweep "
+             "over every int-annotated parameter of all 80 entry points.",
+        design_ref='DESIGN.md §3 C07',
+        technique='Lean 4 proof (accept-iff per builder) + differential correspondence with boundary / out-of-domain generators + type sweep on the implementation'),
     'C14': dict(
         text="Lean theorems over a line-faithful model of MemoryLocation / AddressAndLengthFormatIdentifier and the client's set_format_if_none calls: widths are explicit, else "
              "configured, else the smallest number of bytes (>= 1) holding the value (characterised for every value below 2^64, refusal at and above); the format byte's nibbles equal the "
